@@ -267,4 +267,27 @@ CHECKS = {
         'technique': 'Coq proof (filter / first-appearance lemmas over row lists) + exact vm_compute correspondence of '
                      'the captured constructor arguments',
     },
+    'C18': {
+        'text': 'Machine-checked proof (Properties/C18.v, axiom-free) over the flat layout [individual blocks ++ population '
+                'level] that C17 establishes for every composition: the vector positions named like bottom parameter j '
+                'are exactly k*nb + j, one per individual; the posterior dataset stores bottom parameter j as one '
+                'variable whose k-th individual entry is raw entry k*nb + j, and top parameter t as a scalar holding raw '
+                'entry n*nb + t; IDs attached to positions are the block\'s individual / none; reading the dataset back '
+                'for individual k returns that individual\'s own entries followed by the population level (round trip); '
+                'initial points have length n_ids x non-special dimensions + prior dimension, individual-level entries '
+                'are the population draw of that individual and model dimension, the rest is the prior draw; optimisation '
+                'tables pair estimate k with name k, ID k, score and run. Tied to /repo on every run: SamplingController '
+                '/ OptimisationController runs with the pints controllers replaced by stubs returning tagged integers, '
+                'sample_initial_parameters with tagged prior and population sampler, dataset read-back through '
+                'compute_pointwise_loglikelihood and PosteriorPredictiveModel — all compared exactly (vm_compute); '
+                'directly: label-by-label equality with the raw chains, bijection of positions, seed reproducibility, '
+                'finite prior + population contribution with real priors and samplers.',
+        'note': 'Trusted: Coq kernel, stdlib (no axioms); hand-written model; xarray / pandas containers; pints '
+                'controllers are replaced by stubs (what the samplers and optimisers compute is outside the property). '
+                'Hierarchical pointwise log-likelihoods are unimplemented in chi (NotImplementedError), so read-back is '
+                'exercised per individual. Non-centred bottom-level entries are checked for finiteness, not for their '
+                'distribution. Two fix: commits precede this check.',
+        'technique': 'Coq proof (position arithmetic of the flat layout, dict-style container, round trip) + exact '
+                     'vm_compute correspondence on tagged chains / estimates / draws',
+    },
 }
